@@ -64,6 +64,30 @@ Theorem pipeline_subset m p k fl ps ops o (I : list nat) X : (forall i, (i < len
   msel_rows K k I (eof_pipeline m p k fl ps ops o X) = eof_pipeline (length I) p k fl ps ops o (msel_rows K p I X).
 Proof. intros HI. unfold eof_pipeline, eof_transform. rewrite mmul_sel_rows by exact HI. rewrite scale_sel_rows by exact HI. reflexivity. Qed.
 
+(* cross-set transform of one field: scale with the fitted statistics, project on the PCA basis (p x q1), whiten
+   (q1 x q2), project on the singular vectors (q2 x k), optionally divide each column by its norm *)
+Definition cross_pipeline (m p q1 q2 k : nat) fl ps ops (Vp T Cm : mat) (nrm : option (@vec F)) (X : mat) : mat :=
+  let S := mmul K m q2 k (mmul K m q1 q2 (mmul K m p q1 (scale_mat K m p fl ps ops X) Vp) T) Cm in
+  match nrm with None => S | Some d => tab m k (fun i j => fdiv K (get K S i j) (vget K d j)) end.
+
+Theorem cross_pipeline_concat m1 m2 p q1 q2 k fl ps ops Vp T Cm nrm A B :
+  cross_pipeline (m1 + m2) p q1 q2 k fl ps ops Vp T Cm nrm (vstack K m1 m2 p A B) =
+  vstack K m1 m2 k (cross_pipeline m1 p q1 q2 k fl ps ops Vp T Cm nrm A) (cross_pipeline m2 p q1 q2 k fl ps ops Vp T Cm nrm B).
+Proof. unfold cross_pipeline. rewrite scale_vstack, !mmul_vstack. destruct nrm as [d|]; [|reflexivity].
+  unfold vstack at 2. apply tab_ext. intros i j Hi Hj. destruct (Nat.ltb_spec i m1) as [Hlt|Hge].
+  - rewrite get_tab by lia. rewrite get_vstack_top by assumption. reflexivity.
+  - rewrite get_tab by lia. replace i with (m1 + (i - m1))%nat at 1 by lia. rewrite get_vstack_bot by lia. reflexivity. Qed.
+
+Theorem cross_pipeline_subset m p q1 q2 k fl ps ops Vp T Cm nrm (I : list nat) X : (forall i, (i < length I)%nat -> (nth i I O < m)%nat) ->
+  msel_rows K k I (cross_pipeline m p q1 q2 k fl ps ops Vp T Cm nrm X) = cross_pipeline (length I) p q1 q2 k fl ps ops Vp T Cm nrm (msel_rows K p I X).
+Proof. intros HI. unfold cross_pipeline. destruct nrm as [d|].
+  - set (S := mmul K m q2 k (mmul K m q1 q2 (mmul K m p q1 (scale_mat K m p fl ps ops X) Vp) T) Cm).
+    assert (E : mmul K (length I) q2 k (mmul K (length I) q1 q2 (mmul K (length I) p q1 (scale_mat K (length I) p fl ps ops (msel_rows K p I X)) Vp) T) Cm
+                = msel_rows K k I S).
+    { unfold S. rewrite !mmul_sel_rows by exact HI. rewrite scale_sel_rows by exact HI. reflexivity. }
+    rewrite E. unfold msel_rows. apply tab_ext. intros i j Hi Hj. rewrite !get_tab by (try apply HI; lia). reflexivity.
+  - rewrite !mmul_sel_rows by exact HI. rewrite scale_sel_rows by exact HI. reflexivity. Qed.
+
 (* rotator tail (divide, rotate, sort, rescale, re-sign) is row-wise too *)
 (* a stage that computes entry (i,j) from entry (i, c j) of its input *)
 Definition ewise (q : nat) (c : nat -> nat) (h : nat -> F -> F) (m : nat) (X : mat) : mat :=
